@@ -16,7 +16,14 @@
    op "mut"   a decoder on a damaged encoding      dec, layer der|point|scalar|pem, mk trunc|ext|mut, pos, val,
               body (pem: the cut removes base64 characters), data, L (point/scalar layers: the damaged
               string and the field/scalar length; [] and 0 otherwise), out ok|raise|timeout, mro, site
-   op "curve" on-curve decision of a mutated point lib ok|reject, ossl ok|reject *)
+   op "curve" on-curve decision of a mutated point lib ok|reject, ossl ok|reject
+   op "pemrep" a PEM loader on another text representation of a PEM file (CRLF, blank lines, ...; str or bytes)
+              loader, kind spki|sec1|pkcs8|ecparams, curve, variant, form, der, text, pub, priv, dok, dcurve, dpub, dpriv
+   op "proxy" the crypto plug-in's key classes (register_crypto_plugin) as decoders, valid and damaged input
+              entry raw|registry-raw|der|registry-der|decrypt|priv-der, mk, pos, val, input, out ok|raise, cls, mro,
+              rraw, rder (the key that came out); paired route on pin: pout, pcls, pmro, praw, pder
+              (raw entries: pin = header || input through create_from_der_fmt; decrypt: pin = the point of
+               the block through create_from_raw_fmt; others: no pairing, pin = []) *)
 EXTENDS KeyEnc, Json, IOUtils, TLC
 Trace == ndJsonDeserialize(IOEnv.TRACE_FILE)
 VARIABLE i
@@ -153,6 +160,43 @@ VMut(ev) ==
          ELSE "ok")
     ELSE "no-verdict"
 
+\* every text representation of a PEM file is the same key as its canonical form
+VPemRep(ev) ==
+    LET P == ParseParams(ev.der, 1, Len(ev.der)) IN
+    IF ~SameText(ev.text, EncodePEM(ev.kind, ev.der)) THEN "text-is-no-representation-of-the-pem"
+    ELSE IF ev.kind = "ecparams" /\ ~P.ok THEN P.err
+    ELSE IF ev.kind = "ecparams" /\ P.cpe = "named" /\ P.oid # OidBody(CurveTab[ev.curve].arcs) THEN "curve-oid"
+    ELSE IF ~ev.dok THEN "pem-representation-rejected"
+    ELSE IF ev.dcurve # ev.curve THEN "pem-representation-curve"
+    ELSE IF ev.dpub # ev.pub THEN "pem-representation-public"
+    ELSE IF ev.dpriv # ev.priv THEN "pem-representation-private"
+    ELSE "ok"
+
+\* The plug-in's public-key class reports every refused key as ValueError; a well-formed SubjectPublicKeyInfo
+\* of a named curve the library does not know is no malformed encoding (UnknownCurveError is then documented).
+HasCls(mro, c) == \E k \in 1..Len(mro) : mro[k] = c
+OtherNamedCurve(s) == LET P == ParseSPKI(s) IN P.ok /\ P.cpe = "named" /\ P.oid # OidBody(P256)
+ProxyErrOk(entry, input, mro) ==
+    IF entry = "priv-der" THEN \E k \in 1..Len(mro) : mro[k] \in Documented
+    ELSE \/ HasCls(mro, "ValueError")
+         \/ entry \in {"der", "registry-der"} /\ HasCls(mro, "UnknownCurveError") /\ OtherNamedCurve(input)
+VProxy(ev) ==
+    LET rawish == ev.entry \in {"raw", "registry-raw"} IN
+    IF ev.out = "raise" /\ ~ProxyErrOk(ev.entry, ev.input, ev.mro) THEN "proxy-undocumented-error"
+    ELSE IF ev.out \notin {"ok", "raise"} THEN "no-verdict"
+    ELSE IF rawish /\ ev.out = "ok" /\ ~(Len(ev.input) = 64 /\ ev.rraw = ev.input /\ ev.rder = BEC2_HEADER \o ev.input) THEN "raw-key-changed-or-malformed-accepted"
+    ELSE IF ev.entry \in {"der", "registry-der"} /\ ev.out = "ok" /\ ev.mk \in {"trunc", "ext"} THEN "truncation-or-extension-accepted"
+    ELSE IF ev.entry = "decrypt" /\ ev.out = "ok" /\ ev.mk = "trunc" THEN "truncation-or-extension-accepted"
+    ELSE IF rawish /\ ev.pin # BEC2_HEADER \o ev.input THEN "harness-pairing"
+    ELSE IF ev.entry = "decrypt" /\ ev.mk # "trunc" /\ ~(Len(ev.input) >= 65 /\ ev.input[1] = 4 /\ ev.pin = SubSeq(ev.input, 2, 65)) THEN "harness-pairing"
+    ELSE IF (rawish \/ (ev.entry = "decrypt" /\ ev.mk # "trunc")) THEN
+        (IF ev.pout = "raise" /\ ~HasCls(ev.pmro, "ValueError") THEN "proxy-undocumented-error-on-paired-route"
+         ELSE IF ev.out # ev.pout THEN "routes-differ-in-accept-reject"
+         ELSE IF ev.out = "raise" /\ ev.cls # ev.pcls THEN "routes-differ-in-error-class"
+         ELSE IF rawish /\ ev.out = "ok" /\ (ev.rraw # ev.praw \/ ev.rder # ev.pder) THEN "routes-differ-in-key"
+         ELSE "ok")
+    ELSE "ok"
+
 VCurve(ev) == IF ev.lib = ev.ossl THEN "ok" ELSE "on-curve-decision-differs"
 
 Verdict(ev) ==
@@ -163,6 +207,8 @@ Verdict(ev) ==
     ELSE IF ev.op = "odec" THEN VOdec(ev)
     ELSE IF ev.op = "hdr" THEN VHdr(ev)
     ELSE IF ev.op = "hdr2" THEN VHdr2(ev)
+    ELSE IF ev.op = "pemrep" THEN VPemRep(ev)
+    ELSE IF ev.op = "proxy" THEN VProxy(ev)
     ELSE IF ev.op = "mut" THEN VMut(ev)
     ELSE IF ev.op = "curve" THEN VCurve(ev)
     ELSE "unknown-op"
